@@ -1,6 +1,7 @@
 package main
 
 import (
+	"bytes"
 	"math/big"
 	"context"
 	"encoding/json"
@@ -136,15 +137,14 @@ func (c *hReportCodec) Encode(r llo.Report, cd llotypes.ChannelDefinition) ([]by
 	}
 	rec := J{"kind": "channel", "channel": S(r.ChannelID), "seqNr": S(r.SeqNr), "validAfter": S(r.ValidAfterNanoseconds),
 		"obsTs": S(r.ObservationTimestampNanoseconds), "specimen": r.Specimen, "values": vals}
-	if c.strict && cd.ReportFormat == llotypes.ReportFormatEVMPremiumLegacy && len(cd.Opts) > 0 && cd.Opts[0] == '{' && !r.Specimen {
-		// a well-formed premium-legacy channel: what the REAL codec puts on chain for this report, read back word by
-		// word (feed id, validFromTimestamp, observationsTimestamp, …) — the on-chain window of the report
-		b, err := evm.NewReportCodecPremiumLegacy(logger.Nop(), 1).Encode(r, cd)
-		if err != nil {
-			return nil, err
-		}
-		if len(b) >= 96 {
+	if c.strict && cd.ReportFormat == llotypes.ReportFormatEVMPremiumLegacy && bytes.HasPrefix(cd.Opts, []byte(`{"baseUSDFee"`)) && !r.Specimen {
+		// a well-formed premium-legacy channel (the directed histories): what the REAL codec puts on chain for this
+		// report, read back word by word (feed id, validFromTimestamp, observationsTimestamp, …) — the on-chain
+		// window.  Extra information for the monitor only: whether the recording codec succeeds never depends on it.
+		if b, err := evm.NewReportCodecPremiumLegacy(logger.Nop(), 1).Encode(r, cd); err == nil && len(b) >= 96 {
 			rec["_onchain"] = J{"validFrom": new(big.Int).SetBytes(b[32:64]).String(), "obsTs": new(big.Int).SetBytes(b[64:96]).String()}
+		} else if err != nil {
+			rec["_onchain_err"] = err.Error()
 		}
 	}
 	return marshal(rec), nil
